@@ -25,6 +25,9 @@ pub enum Op {
     /// run `wrap_iter` over k items to exhaustion
     Iter(u8),
     Reset,
+    Println(u8),
+    SuspendOut,
+    SuspendEmpty,
 }
 
 pub struct C04s {
@@ -97,7 +100,7 @@ impl Hist for C04s {
         if prefix.contains(&Op::DropBar) {
             return vec![];
         }
-        vec![Op::Burn, Op::Idle, Op::Tick, Op::Inc, Op::Msg(0), Op::Msg(1), Op::SetLen, Op::Finish, Op::FinishMsg, Op::FinishClear, Op::Abandon, Op::AbandonMsg, Op::FinishUsingStyle, Op::DropBar, Op::Iter(0), Op::Iter(1), Op::Iter(3), Op::Reset]
+        vec![Op::Burn, Op::Idle, Op::Tick, Op::Inc, Op::Msg(0), Op::Msg(1), Op::SetLen, Op::Finish, Op::FinishMsg, Op::FinishClear, Op::Abandon, Op::AbandonMsg, Op::FinishUsingStyle, Op::DropBar, Op::Iter(0), Op::Iter(1), Op::Iter(3), Op::Reset, Op::Println(0), Op::Println(1), Op::SuspendOut, Op::SuspendEmpty]
     }
 
     fn run(&self, hist: &[Op], stats: &mut Stats) -> Verdict {
@@ -116,9 +119,13 @@ impl Hist for C04s {
         let mut flushes_before = 0;
         let mut doc_before = vec![];
         let mut drop_finished = false;
+        let mut logs: Vec<String> = Vec::new();
+        let mut frame_shown: Vec<String> = Vec::new();
+        let mut painted_last = false;
         for (i, op) in hist.iter().enumerate() {
             clock::advance_ms(2);
             let last = i + 1 == hist.len();
+            let flushes_at_op = spy.flushes();
             if last {
                 flushes_before = spy.flushes();
                 doc_before = spy.doc();
@@ -150,6 +157,12 @@ impl Hist for C04s {
                         }
                     }
                     Op::Reset => b.reset(),
+                    Op::Println(k) => b.println(if *k == 0 { "log" } else { "a log line wider than the terminal" }),
+                    Op::SuspendOut => {
+                        let spy2 = spy.clone();
+                        b.suspend(|| spy2.raw_write_line("out"))
+                    }
+                    Op::SuspendEmpty => b.suspend(|| ()),
                 }
             });
             drop(bar);
@@ -216,6 +229,22 @@ impl Hist for C04s {
                     rf.finished = false;
                     rf.hidden = false;
                 }
+                Op::Println(k) => {
+                    logs.extend(wrap_rows(if *k == 0 { "log" } else { "a log line wider than the terminal" }, w));
+                    must_paint = true;
+                }
+                Op::SuspendOut => {
+                    logs.extend(wrap_rows("out", w));
+                    must_paint = true;
+                }
+                Op::SuspendEmpty => must_paint = true,
+            }
+            if last {
+                painted_last = spy.flushes() > flushes_before;
+            }
+            if spy.flushes() > flushes_at_op {
+                // a frame was completed during this operation: it shows the state as of now
+                frame_shown = rf.rows(self.two_line, w);
             }
         }
         let doc = spy.doc();
@@ -231,7 +260,8 @@ impl Hist for C04s {
             if !painted {
                 return bad("final-state: finishing/dropping/exhausting the iterator did not paint a frame", format!("document {:?}", doc));
             }
-            let mut want = rf.rows(self.two_line, w);
+            let mut want = logs.clone();
+            want.extend(rf.rows(self.two_line, w));
             while want.last().map_or(false, |s| s.is_empty()) {
                 want.pop();
             }
@@ -239,7 +269,7 @@ impl Hist for C04s {
                 return bad("final-state: the last frame does not show the final state", format!("expected {:?}, terminal shows {:?}", want, doc));
             }
             if let Some(f) = fin_now {
-                if !f {
+                if !f && rf.finished {
                     return bad("final-state: is_finished() is false after finishing", String::new());
                 }
             }
@@ -247,6 +277,23 @@ impl Hist for C04s {
                 if p != rf.pos {
                     return bad("final-state: position after finishing is not the one the finish behaviour defines", format!("position {p}, expected {}", rf.pos));
                 }
+            }
+        }
+        // redraw integrity under the limiter: the document is always logs ++ the frame of the last
+        // completed draw; an operation that completes no draw leaves it untouched
+        if !painted_last && doc != doc_before {
+            return bad("unpainted-change: the document changed although no frame was completed", format!("before {:?} after {:?}", doc_before, doc));
+        }
+        {
+            let mut want = logs.clone();
+            want.extend(frame_shown.iter().cloned());
+            while want.last().map_or(false, |s| s.is_empty()) {
+                want.pop();
+            }
+            if spy.flushes() > 0 && doc != want {
+                let logs_ok = doc.len() >= logs.len() && doc.iter().zip(logs.iter()).all(|(a, b)| a == b);
+                let class = if !logs_ok { "document: a printed line is erased/overwritten (rate-limited target)" } else { "document: frame is not the one of the last completed draw (rate-limited target)" };
+                return bad(class, format!("expected {:?}, terminal shows {:?}", want, doc));
             }
         }
         if drop_finished && doc != doc_before {
